@@ -1,0 +1,37 @@
+//go:build verif
+
+package auth
+
+import (
+	"github.com/DrmagicE/gmqtt/config"
+	"github.com/DrmagicE/gmqtt/server"
+)
+
+// Verification hooks (build tag verif). Add-only: nothing here is compiled without the tag.
+
+// VerifNew builds an Auth through New, exactly as the plugin registry of the server does,
+// for the given plugin configuration and configuration directory (config.Config.ConfigDir).
+func VerifNew(cfg Config, configDir string) *Auth {
+	c := cfg
+	p, err := New(config.Config{
+		ConfigDir: configDir,
+		Plugins:   map[string]config.Configuration{Name: &c},
+	})
+	if err != nil {
+		panic(err)
+	}
+	return p.(*Auth)
+}
+
+// VerifStubAPI replaces the gRPC/HTTP registration done at the start of Load by a no-op, so
+// that Load can run without a server (Load(nil)). The returned function restores it.
+func VerifStubAPI() (restore func()) {
+	old := registerAPI
+	registerAPI = func(service server.Server, a *Auth) error { return nil }
+	return func() { registerAPI = old }
+}
+
+// VerifValidate calls the unexported validate.
+func (a *Auth) VerifValidate(username, password string) (bool, error) {
+	return a.validate(username, password)
+}
